@@ -3,8 +3,8 @@ CONSTANTS
   P = 2
   EP = 2
   G = 1
-  MaxSlot = 13
-  StartSlots = {0, 3}
+  MaxSlot = 5
+  StartSlots = {2}
   Mode = "design"
   RecMax = 2
   RecKeep = 1
@@ -13,16 +13,16 @@ CONSTANTS
   KRoots = 4
   KBids = 4
   Menu = {{}, {0}, {0, 1}}
-  Moods = {"quiet", "plain", "reorg"}
+  Moods = {"plain", "reorg"}
   MaxReorgs = 2
   MsgLates = {0}
   AucLates = {0}
   SubLates = {0}
   AttLates = {0}
   MaxHeld = 1
-  MaxPasses = 1
-  MaxHeads = 1
-  HoldKinds = {"refresh"}
+  MaxPasses = 2
+  MaxHeads = 2
+  HoldKinds = {"start", "prepare", "refresh"}
   Fams = {"att"}
-INVARIANTS NeverReschedOverRunning
+INVARIANTS NeverExists
 CHECK_DEADLOCK FALSE
